@@ -2,13 +2,19 @@ package main
 
 import (
 	"fmt"
+	"go/ast"
+	"go/parser"
 	"go/token"
 	"go/types"
+	"os"
+	"path/filepath"
+	"regexp"
 	"regexp/syntax"
 	"sort"
 	"strconv"
 	"strings"
 
+	"golang.org/x/tools/go/packages"
 	"golang.org/x/tools/go/ssa"
 )
 
@@ -283,6 +289,7 @@ func checkC18(p *Prog, r *Report) {
 	r.Rule("R18a", "both generators' regular expressions denote the same language (Thompson NFAs from regexp/syntax, simultaneous subset construction over a common rune partition); the failing-prefix groups denote the same language; the Coq name group equals \"test\" followed by the Go name group; the function name is reconstructed from the groups exactly as it was matched", 5)
 	r.Rule("R18b", "both generators apply the same file filter: on every abstract path of the generator (helpers spliced in) that opens a source file, the file name was tested negative for the backup, gold and _test.go suffixes (directly or through a helper that is a pure suffix predicate over a constant set); a positive test never reaches the open call; the sets of suffixes tested by the two generators are equal", 4)
 	r.Rule("R18c", "one emission per match: on every abstract path, Fprintf calls that print parts of the match occur only under len(m) != 0 (or m != nil); the Coq generator emits exactly one of the Fail/plain forms per match, the Fail form exactly under a non-empty failing group; the Go generator's emission sequence per match is brace-balanced, names Test<name> and calls <failing-prefix>test<name>", 6)
+	r.Rule("R18e", "the generated Go file compiles (structural part): the constant text the Go generator writes on a path — header, per-match formats with a sample identifier for every %s, footer — assembled for a run with one match and for a run with none is a syntactically valid Go file, imports every package it names and uses every package it imports", 4)
 	r.Rule("R18d", "the output file is opened with os.Create (truncating); no other file-opening-for-write call exists in the generator", 1)
 	r.Assume = append(r.Assume, "matches inside raw strings or block comments are a limitation of the line-regex approach shared by both generators and are not decided", "bufio.Scanner yields lines without newline")
 	f := p.Func(testGenPkg, "main")
@@ -355,6 +362,10 @@ func checkC18(p *Prog, r *Report) {
 	checkRegexes(r, br["coq"], br["go"])
 	checkFilters(p, r, f, ips, br, preds)
 	checkEmissions(p, r, f, br)
+	checkGoFile(p, r, br["go"])
+	if os.Getenv("VERIF_DEBUG") == "R18e" {
+		dbgC18Events(br["go"])
+	}
 	// R18d
 	var creates, others []string
 	for _, g := range p.region([]*ssa.Function{f}) {
@@ -374,6 +385,25 @@ func checkC18(p *Prog, r *Report) {
 	}
 	r.Check("R18d", "output file is truncated on open", f.Pos(), len(creates) >= 1 && len(others) == 0,
 		fmt.Sprintf("os.Create calls: %v; %s: regenerating into an existing longer file would keep its tail", creates, strings.Join(others, ", ")))
+	// the output is still open when it is written: on no abstract path does a (non-deferred) Close of a file
+	// precede a write of generated text to it (the Fprint calls discard their errors, so a closed file yields
+	// an empty test file without any message)
+	closedEarly, nWrites := "", 0
+	for _, ip := range ips {
+		closed := map[string]bool{}
+		for _, e := range ip.Events {
+			if e.Callee == "(*os.File).Close" && !e.Deferred && len(e.Args) > 0 {
+				closed[e.Args[0]] = true
+			}
+			if strings.HasPrefix(e.Callee, "fmt.Fprint") && len(e.Args) > 0 {
+				nWrites++
+				if closed[e.Args[0]] && closedEarly == "" {
+					closedEarly = "text is written to " + e.Args[0] + " after it was closed on the path " + ip.Trace
+				}
+			}
+		}
+	}
+	r.Check("R18d", "output file is open while the tests are written", f.Pos(), nWrites > 0 && closedEarly == "", closedEarly)
 }
 
 func checkRegexes(r *Report, cq, gq *genBranch) {
@@ -597,6 +627,7 @@ func checkEmissions(p *Prog, r *Report, f *ssa.Function, br map[string]*genBranc
 	for _, n := range []string{"coq", "go"} {
 		g := br[n]
 		nMatch, nEmit := 0, 0
+		scanBad, nScan := "", 0
 		unguarded, formBad, argBad, goBad := "", "", "", ""
 		for _, ip := range g.paths {
 			mk := ip.eventsOf(findName)[0].Key
@@ -610,6 +641,42 @@ func checkEmissions(p *Prog, r *Report, f *ssa.Function, br map[string]*genBranc
 			lm := "len(" + mk + ")"
 			matched := hasAny(ip.Rels, "0 != "+lm, "0 < "+lm, eqRelNe("nil", mk), lm+" != 0")
 			noMatch := hasAny(ip.Rels, eqRel("0", lm), eqRel("nil", mk), lm+" <= 0")
+			// the examined line is one the scanner delivered: Scan() returned true for it, and the file's loop
+			// is left only when Scan() returned false (otherwise lines, hence test functions, are skipped)
+			scanT, scanF := false, false
+			for k := range ip.Rels {
+				if strings.Contains(k, "bufio.Scanner.Scan(") {
+					if strings.HasSuffix(k, " == true") || strings.HasPrefix(k, "true == ") {
+						scanT = true
+					}
+					if strings.HasSuffix(k, " == false") || strings.HasPrefix(k, "false == ") {
+						scanF = true
+					}
+				}
+			}
+			// … and it is the must-fact where the line is taken from the scanner (an iteration entered on
+			// Scan() == false examines a stale or empty line)
+			nText := 0
+			for _, te := range ip.eventsOf("(*bufio.Scanner).Text") {
+				if te.In == nil || te.In.Parent() == nil {
+					continue
+				}
+				nText++
+				at := false
+				for k := range p.RelsAt(p.Rels(te.In.Parent()), te.In) {
+					if strings.Contains(k, "bufio.Scanner.Scan(") && (strings.HasSuffix(k, " == true") || strings.HasPrefix(k, "true == ")) {
+						at = true
+					}
+				}
+				scanT = scanT && at
+			}
+			scanT = scanT && nText > 0
+			nScan++
+			if !scanT {
+				scanBad = "a line is examined without the fact that Scan() returned true for it on the path " + ip.Trace
+			} else if !scanF {
+				scanBad = "the scanning loop is left on the path " + ip.Trace + " without the fact that Scan() returned false: remaining lines are not examined"
+			}
 			if len(emit) > 0 {
 				nEmit++
 				if !matched {
@@ -697,6 +764,7 @@ func checkEmissions(p *Prog, r *Report, f *ssa.Function, br map[string]*genBranc
 			continue
 		}
 		r.Check("R18c", n+" generator emits only on a match", g.pos, unguarded == "", unguarded)
+		r.Check("R18c", n+" generator examines every line the scanner delivers", g.pos, nScan > 0 && scanBad == "", scanBad)
 		if n == "coq" {
 			r.Check("R18c", "coq generator emits exactly one form per match", g.pos, formBad == "" || !strings.Contains(formBad, "emissions for one"), formBad)
 			r.Check("R18c", "coq Fail form exactly when the failing group is non-empty", g.pos, formBad == "" || strings.Contains(formBad, "emissions for one"), formBad)
@@ -713,4 +781,289 @@ func eqRelNe(a, b string) string {
 		a, b = b, a
 	}
 	return a + " != " + b
+}
+
+type goText struct {
+	text  string
+	trace string
+}
+
+// goFileTexts assembles, in path order, the constant text the Go generator writes on a path with one matched
+// line (key true) and on a path without a match (key false). sub, if not nil, gives the text standing for the
+// regular expression's groups 2 and 3; every other %s becomes a sample identifier.
+func goFileTexts(g *genBranch, sub map[int]string) (map[bool]*goText, string) {
+	type variant = goText
+	texts := map[bool]*variant{}
+	undec := ""
+	for _, ip := range g.paths {
+		mk := ip.eventsOf(findName)[0].Key
+		lm := "len(" + mk + ")"
+		matched := hasAny(ip.Rels, "0 != "+lm, "0 < "+lm, eqRelNe("nil", mk), lm+" != 0")
+		if texts[matched] != nil {
+			continue
+		}
+		var sb strings.Builder
+		ok := true
+		for _, e := range ip.Events {
+			switch e.Callee {
+			case "fmt.Fprintf":
+				if len(e.Args) < 2 {
+					ok = false
+					continue
+				}
+				f, err := strconv.Unquote(e.Args[1])
+				if err != nil {
+					ok, undec = false, "a format that is not a constant: "+e.Args[1]
+					continue
+				}
+				if sub != nil && len(e.Args) >= 3 {
+					// the i-th %s receives the i-th printed operand: m[2] (failing group) or m[3] (name group)
+					ops := splitTop(strings.TrimSuffix(strings.TrimPrefix(e.Args[2], "["), "]"))
+					for _, o := range ops {
+						v := "Abc1"
+						switch {
+						case strings.HasSuffix(o, "[2]"):
+							v = sub[2]
+						case strings.HasSuffix(o, "[3]"):
+							v = sub[3]
+						}
+						f = strings.Replace(f, "%s", v, 1)
+					}
+				}
+				f = strings.ReplaceAll(f, "%s", "Abc1")
+				f = strings.ReplaceAll(f, "%%", "\x00")
+				if strings.Contains(f, "%") {
+					ok, undec = false, "a format verb other than %s in "+e.Args[1]
+				}
+				sb.WriteString(strings.ReplaceAll(f, "\x00", "%"))
+			case "fmt.Fprint", "fmt.Fprintln":
+				if len(e.Args) < 2 {
+					ok = false
+					continue
+				}
+				a := e.Args[1]
+				if !strings.HasPrefix(a, "[") || !strings.HasSuffix(a, "]") {
+					ok, undec = false, "printed operands are not constants: "+a
+					continue
+				}
+				c, err := strconv.Unquote(a[1 : len(a)-1])
+				if err != nil {
+					ok, undec = false, "printed operands are not one constant string: "+a[:min(len(a), 60)]
+					continue
+				}
+				sb.WriteString(c)
+				if e.Callee == "fmt.Fprintln" {
+					sb.WriteString("\n")
+				}
+			}
+		}
+		if ok {
+			texts[matched] = &variant{sb.String(), ip.Trace}
+		}
+	}
+	return texts, undec
+}
+
+// checkGoFile decides the structural part of "the generated Go file compiles against the package" (R18e): the
+// constant text the Go generator writes on a path — header, the per-match formats with a sample identifier in
+// place of every %s, footer — is assembled in path order for a run with one matched line and for a run with
+// none, and each text must be a syntactically valid Go file (go/parser) whose package qualifiers are imported
+// by that same text and whose imports are all used (an unused import is a compile error in Go).
+func checkGoFile(p *Prog, r *Report, g *genBranch) {
+	texts, undec := goFileTexts(g, nil)
+	if texts[true] == nil || texts[false] == nil {
+		r.Unknown("R18e", "go generator output text", g.pos, "the constant text of a run with one match and of a run without a match could not be assembled: "+undec)
+		return
+	}
+	for _, m := range []bool{true, false} {
+		what := map[bool]string{true: "one test function", false: "no test function"}[m]
+		v := texts[m]
+		fset := token.NewFileSet()
+		file, err := parser.ParseFile(fset, "generated_test.go", v.text, parser.AllErrors)
+		if err != nil {
+			r.Check("R18e", "generated Go file for a package with "+what+" is syntactically valid", g.pos, false, fmt.Sprintf("the assembled text does not parse as Go: %v", err))
+			continue
+		}
+		r.Check("R18e", "generated Go file for a package with "+what+" is syntactically valid", g.pos, true, "")
+		imports := map[string]string{}
+		for _, im := range file.Imports {
+			pth, _ := strconv.Unquote(im.Path.Value)
+			name := pth[strings.LastIndex(pth, "/")+1:]
+			if im.Name != nil {
+				name = im.Name.Name
+			}
+			imports[name] = pth
+		}
+		used := map[string]bool{}
+		missing := ""
+		ast.Inspect(file, func(n ast.Node) bool {
+			if se, ok := n.(*ast.SelectorExpr); ok {
+				if id, ok := se.X.(*ast.Ident); ok && id.Obj == nil {
+					if _, isImp := imports[id.Name]; isImp {
+						used[id.Name] = true
+					} else if missing == "" {
+						missing = id.Name + "." + se.Sel.Name
+					}
+				}
+			}
+			return true
+		})
+		r.Check("R18e", "generated Go file for a package with "+what+" imports every package it names", g.pos, missing == "", "the text uses "+missing+" but imports no such package")
+		var unused []string
+		for n, pth := range imports {
+			if !used[n] && n != "_" && n != "." {
+				unused = append(unused, pth)
+			}
+		}
+		sort.Strings(unused)
+		for _, u := range unused {
+			r.Fail("R18e", "generated Go file for a package with "+what+" uses its import "+u, g.pos,
+				"the header imports "+u+" but the text generated for a package with "+what+" never uses it: `imported and not used` is a compile error", v.trace)
+		}
+		if len(unused) == 0 {
+			r.Check("R18e", "generated Go file for a package with "+what+" uses every import", g.pos, true, "")
+		}
+		// identifiers the text leaves undeclared: only predeclared names, imported packages and the test
+		// function it calls (which the semantics package declares) may stay open
+		var open []string
+		for _, id := range file.Unresolved {
+			if _, isImp := imports[id.Name]; isImp || types.Universe.Lookup(id.Name) != nil ||
+				strings.HasPrefix(id.Name, "test") || strings.HasPrefix(id.Name, "failing_test") || strings.HasSuffix(id.Name, "testAbc1") {
+				continue
+			}
+			open = append(open, id.Name)
+		}
+		r.Check("R18e", "generated Go file for a package with "+what+" declares what it uses", g.pos, len(open) == 0, fmt.Sprintf("identifiers %v are used but neither declared in the generated text, imported, nor a test function of the package", open))
+	}
+	checkGoFileTypes(p, r, g)
+}
+
+// checkGoFileTypes type-checks the generated text against the repository's semantics package: the package whose
+// name is the generated file's package clause and which declares a function the Go generator's expression
+// matches. The text for that one function (and the text for no function) replaces <dir>/generated_test.go through
+// a go/packages overlay and the package's test variant is type-checked (go/types; nothing is executed). This
+// decides "compiles against the package" for a sample test function; the templates treat every name alike.
+func checkGoFileTypes(p *Prog, r *Report, g *genBranch) {
+	re, err := regexp.Compile(g.regex)
+	if err != nil {
+		return
+	}
+	t0, _ := goFileTexts(g, nil)
+	if t0[false] == nil {
+		return
+	}
+	pf, err := parser.ParseFile(token.NewFileSet(), "g.go", t0[false].text, parser.PackageClauseOnly)
+	if err != nil {
+		return // reported by the syntactic obligation
+	}
+	var pkg *packages.Package
+	var sub map[int]string
+	sample := ""
+	for _, pk := range p.Pkgs {
+		if pk.Name != pf.Name.Name {
+			continue
+		}
+		var names []string
+		for _, f := range pk.Syntax {
+			for _, d := range f.Decls {
+				if fd, ok := d.(*ast.FuncDecl); ok && fd.Recv == nil {
+					names = append(names, fd.Name.Name)
+				}
+			}
+		}
+		sort.Strings(names)
+		for _, n := range names {
+			if m := re.FindStringSubmatch("func " + n + "() bool {"); len(m) >= 4 && pkg == nil {
+				pkg, sub, sample = pk, map[int]string{2: m[2], 3: m[3]}, n
+			}
+		}
+	}
+	if pkg == nil || len(pkg.GoFiles) == 0 {
+		r.Note("R18e: no package named %s with a function matched by the Go generator's expression is part of the repository; the type-check of the generated text is skipped", pf.Name.Name)
+		return
+	}
+	texts, _ := goFileTexts(g, sub)
+	dir := filepath.Dir(pkg.GoFiles[0])
+	for _, m := range []bool{true, false} {
+		what := map[bool]string{true: "the test function " + sample, false: "no test function"}[m]
+		if texts[m] == nil {
+			continue
+		}
+		env := append(os.Environ(), "GOWORK=off", "GOFLAGS=-mod=mod", "GOPROXY=off", "GOSUMDB=off", "GOTOOLCHAIN=local", "CGO_ENABLED=0")
+		cfg := &packages.Config{
+			Mode:    packages.LoadSyntax,
+			Dir:     p.Dir,
+			Env:     env,
+			Tests:   true,
+			Overlay: map[string][]byte{filepath.Join(dir, "generated_test.go"): []byte(texts[m].text)},
+		}
+		pkgs, err := packages.Load(cfg, pkg.PkgPath)
+		if err != nil {
+			r.Unknown("R18e", "generated Go file for "+what+" type-checks against package "+pkg.Name, g.pos, fmt.Sprintf("cannot load %s with the generated text as overlay: %v", pkg.PkgPath, err))
+			continue
+		}
+		var errs []string
+		seen := false
+		for _, pk := range pkgs {
+			for _, f := range pk.GoFiles {
+				if filepath.Base(f) == "generated_test.go" {
+					seen = true
+				}
+			}
+			for _, e := range pk.Errors {
+				errs = append(errs, e.Error())
+			}
+		}
+		sort.Strings(errs)
+		if len(errs) > 3 {
+			errs = errs[:3]
+		}
+		r.Check("R18e", "generated Go file for "+what+" type-checks against package "+pkg.Name, g.pos, seen && len(errs) == 0,
+			fmt.Sprintf("the text the generator writes for %s does not compile in %s (overlay seen=%v): %s", what, pkg.PkgPath, seen, strings.Join(errs, "; ")))
+	}
+}
+
+func dbgC18Events(g *genBranch) {
+	for _, ip := range g.paths {
+		for _, e := range ip.Events {
+			if strings.HasPrefix(e.Callee, "fmt.Fp") {
+				fmt.Printf("EV %s %q\n", e.Callee, e.Args)
+			}
+		}
+		break
+	}
+}
+
+// splitTop splits a rendered operand list at its top-level commas (brackets and quoted strings are skipped).
+func splitTop(s string) []string {
+	var out []string
+	d, start, inq := 0, 0, false
+	for i := 0; i < len(s); i++ {
+		c := s[i]
+		if inq {
+			if c == '\\' {
+				i++
+			} else if c == '"' {
+				inq = false
+			}
+			continue
+		}
+		switch c {
+		case '"':
+			inq = true
+		case '(', '[', '{':
+			d++
+		case ')', ']', '}':
+			d--
+		case ',':
+			if d == 0 {
+				out = append(out, s[start:i])
+				start = i + 1
+			}
+		}
+	}
+	if start < len(s) {
+		out = append(out, s[start:])
+	}
+	return out
 }
